@@ -169,7 +169,7 @@ static int rd_advance(MPT_INTERFACE(rawdata) *ptr)
 	}
 	/* add cycle placeholder (stage elements need their traits to be finalized) */
 	if (!(traits = mpt_stage_traits())
-	    || !mpt_array_set(&rd->st, traits, traits->size, 0, buf ? buf->_used : 0)) {
+	    || !mpt_array_set(&rd->st, traits, traits->size, 0, buf ? (long) (buf->_used / traits->size) : 0)) {
 		return 0;
 	}
 	rd->act = act;
